@@ -136,3 +136,24 @@ def assignments_dom(leaves, margin=10):
     doms = [domain(leaves[i][0], leaves[i][1], margin) for i in ids]
     for vals in itertools.product(*doms):
         yield dict(zip(ids, vals))
+
+
+def truth_vec(ast, env, table=None):
+    """Vectorised truth(): env maps leaf id -> int64 array (all of one shape).  table: ast-node -> array of node values."""
+    k = ast[0]
+    if k == 'L':
+        v = env[ast[1]]
+    else:
+        _, i, sign, value, children, fixed = ast
+        if fixed is not None and fixed[0] == fixed[1]:
+            any_leaf = next(iter(env.values()))
+            v = np.full(any_leaf.shape, fixed[0], dtype=np.int64)
+        else:
+            s = None
+            for c in children:
+                cv = truth_vec(c, env, table)
+                s = cv.copy() if s is None else s + cv
+            v = (sign * s >= value).astype(np.int64)
+    if table is not None:
+        table[ast] = v
+    return v
